@@ -109,7 +109,7 @@ pub fn check_history(h: &Hist) -> Result<(bool, Vec<&'static str>, u64), Failure
                                 Op::Committed { .. } => {
                                     committed = stored_poll(&committed_at(log, i + 1 + k + 1, &h.script)) == *nw;
                                 }
-                                Op::Storage { .. } | Op::Took(_) | Op::Quiescent | Op::EmbedderHoldsStorage => {}
+                                Op::Storage { .. } | Op::Took(_) | Op::Quiescent | Op::EmbedderHoldsStorage | Op::EmbedderHoldsAppSet => {}
                                 Op::MachineDropped | Op::Crash { .. } => {
                                     announced = true;
                                     committed = true;
